@@ -1,1 +1,940 @@
-(** Model/Engine.v — placeholder, to be written. *)
+(** Model/Engine.v — pypyr's step interpreter: dsl.Step / RetryDecorator / WhileDecorator,
+    utils.poll.while_until_true, retries, stepsrunner.StepsRunner, pipeline.Pipeline,
+    steps.pype and the control-of-flow steps.  One Gallina function per Python method,
+    same names, same order of effects.  Python exceptions are outcomes; the recursive
+    entry points (run_step_groups, load_and_run_pipeline) are parameters ([rg], [rp]) of
+    everything else, and the knot is tied on fuel at the end of the file. *)
+From PV Require Export Format.
+Open Scope string_scope.
+
+(** * Outcomes *)
+Record cof := mkcof {
+  c_groups : list val;          (* group names as they came out of the formatted config *)
+  c_success : option string;
+  c_failure : option string;
+  c_key : string;               (* 'call' / 'jump' / 'switch' *)
+  c_orig : val                  (* the caller's original config object *)
+}.
+
+Inductive signal :=
+| SStop | SStopPipeline | SStopStepGroup      (* errors.Stop and its two subclasses *)
+| SCall (c : cof) | SJump (c : cof).          (* errors.ControlOfFlowInstruction *)
+
+Inductive raised :=
+| RExn (name msg : string) (eid : Z)          (* an ordinary exception object *)
+| RSig (s : signal).
+
+Inductive outcome :=
+| OOk
+| ORaise (r : raised)
+| OHandled (cause : raised)                   (* errors.HandledError raised from [cause] *)
+| OUnsup.                                     (* outside the model / out of fuel *)
+
+(** * Programs *)
+Inductive body :=
+| BProbe | BFail | BIncr
+| BStop | BStopPipeline | BStopStepGroup
+| BCall | BJump | BSwitch
+| BSet | BClear | BClearAll
+| BPype.
+
+Record wcfg := mkw { w_max : option val; w_stop : option val; w_sleep : val; w_eom : val }.
+Record rcfg := mkr { r_max : option val; r_sleep : val; r_backoff : option val;
+                     r_args : option val; r_jrc : val; r_sleepmax : option val;
+                     r_stopon : option val; r_retryon : option val }.
+
+Record step := mkstep {
+  s_name : string;
+  s_body : body;
+  s_in : option dict;
+  s_foreach : option val;
+  s_while : option wcfg;
+  s_retry : option rcfg;
+  s_run : val; s_skip : val; s_swallow : val;
+  s_onerror : option val;
+  s_pos : option (Z * Z)        (* yaml line, col; None for a bare-string step *)
+}.
+
+Definition pipeline := list (string * option (list step)).   (* group -> steps (None = null) *)
+Definition library := list (string * pipeline).
+
+(** * State *)
+Record st := mkst {
+  ctx : dict;
+  stack : list string;          (* Context._stack: pipeline names, innermost first *)
+  trace : list val;             (* probe events *)
+  sleeps : list Q;              (* every time.sleep argument, in order *)
+  next_eid : Z;
+  jit : Q                       (* what random.random() returns (harness-controlled) *)
+}.
+
+Definition R := (outcome * st)%type.
+
+Definition set_ctx (s : st) (c : dict) : st :=
+  mkst c (stack s) (trace s) (sleeps s) (next_eid s) (jit s).
+Definition set_stack (s : st) (k : list string) : st :=
+  mkst (ctx s) k (trace s) (sleeps s) (next_eid s) (jit s).
+Definition add_trace (s : st) (e : val) : st :=
+  mkst (ctx s) (stack s) (trace s ++ [e]) (sleeps s) (next_eid s) (jit s).
+Definition add_sleep (s : st) (q : Q) : st :=
+  mkst (ctx s) (stack s) (trace s) (sleeps s ++ [q]) (next_eid s) (jit s).
+
+Definition raise_new (name msg : string) (s : st) : R :=
+  (ORaise (RExn name msg (next_eid s)),
+   mkst (ctx s) (stack s) (trace s) (sleeps s) (next_eid s + 1) (jit s)).
+
+Definition lift {A} (r : res A) (s : st) (k : A -> R) : R :=
+  match r with
+  | Ok a => k a
+  | Err n m => raise_new n m s
+  | Unsup => (OUnsup, s)
+  end.
+
+Definition andthen (r : R) (k : st -> R) : R :=
+  match r with (OOk, s) => k s | _ => r end.
+
+(** [dict.pop(k, None)]: on a well-formed dict (unique keys) removing every binding of [k]
+    is the same as removing the first; the all-occurrences form has simpler laws. *)
+Definition dict_pop (k : val) (d : dict) : dict :=
+  filter (fun kv => negb (val_eqb k (fst kv))) d.
+Definition spop (k : string) (d : dict) : dict := dict_pop (VStr k) d.
+
+(** * Formatting helpers over the current context *)
+Definition fmt (s : st) (v : val) : res val := format_value FUEL (ctx s) v.
+
+Definition cast_str_to_bool (x : string) : bool := str_in (lower x) ["true"; "1"; "1.0"].
+
+(** [Context.get_formatted_as_type(value, out_type=bool)] *)
+Definition as_bool (s : st) (v : val) : res bool :=
+  match v with
+  | VPy _ _ | VSic _ | VJsonify _ =>
+      let* r := fmt s v in Ok (py_truth r)
+  | VStr _ =>
+      let* r := fmt s v in
+      match r with
+      | VBool b => Ok b
+      | VStr x => Ok (cast_str_to_bool x)
+      | _ => Ok (py_truth r)
+      end
+  | _ => Ok (py_truth v)
+  end.
+
+Definition int_of (r : val) : res Z :=
+  match r with
+  | VInt z => Ok z
+  | VBool b => Ok (if b then 1 else 0)%Z
+  | VFloat q => Ok (Z.quot (Qnum q) (Zpos (Qden q)))
+  | VStr x => if isdigit x then Ok (digits_to_Z x 0) else Unsup
+  | _ => Unsup
+  end.
+
+(** [get_formatted_as_type(value, out_type=int)] *)
+Definition as_int (s : st) (v : val) : res Z :=
+  match v with
+  | VPy _ _ | VSic _ | VJsonify _ | VStr _ => let* r := fmt s v in int_of r
+  | _ => int_of v
+  end.
+
+Definition q_of (r : val) : res Q :=
+  match r with
+  | VInt z => Ok (inject_Z z)
+  | VBool b => Ok (if b then 1 else 0)%Q
+  | VFloat q => Ok q
+  | _ => Unsup
+  end.
+
+(** [get_formatted_as_type(value, out_type=float)] *)
+Definition as_float (s : st) (v : val) : res Q :=
+  match v with
+  | VPy _ _ | VSic _ | VJsonify _ | VStr _ => let* r := fmt s v in q_of r
+  | _ => q_of v
+  end.
+
+(** [Context.get_formatted(key)] *)
+Definition get_formatted (s : st) (key : string) : res val :=
+  match sget key (ctx s) with
+  | None => key_missing key
+  | Some v =>
+      match fmt s v with
+      | Err "pypyr.errors.KeyNotInContextError" m =>
+          match py_str v with
+          | Some sv => Err "pypyr.errors.KeyNotInContextError"
+                           ("Unable to format '" ++ sv ++ "' at context['" ++ key ++ "'], because " ++ m)
+          | None => Unsup
+          end
+      | r => r
+      end
+  end.
+
+(** [asserts.assert_key_has_value(context, key, caller)] *)
+Definition assert_key_has_value (s : st) (key caller : string) : res val :=
+  match sget key (ctx s) with
+  | None => Err "pypyr.errors.KeyNotInContextError"
+                ("context['" ++ key ++ "'] doesn't exist. It must exist for " ++ caller ++ ".")
+  | Some VNone => Err "pypyr.errors.KeyInContextHasNoValueError"
+                      ("context['" ++ key ++ "'] must have a value for " ++ caller ++ ".")
+  | Some v => Ok v
+  end.
+
+Definition opt_str (v : option val) : res (option string) :=
+  match v with
+  | None | Some VNone => Ok None
+  | Some (VStr x) => Ok (Some x)
+  | _ => Unsup
+  end.
+
+(** * Control-of-flow steps (steps/dsl/cof.py) *)
+Definition instruction_from_dict (config : val) (key : string) (orig : val) : res cof :=
+  match config with
+  | VStr g => Ok (mkcof [VStr g] None None key orig)
+  | VList gs => Ok (mkcof gs None None key orig)
+  | VDict d =>
+      match sget "groups" d with
+      | None => Unsup
+      | Some g =>
+          if negb (py_truth g) then Unsup else
+          let gs := match g with VStr x => Some [VStr x] | VList l => Some l | _ => None end in
+          match gs with
+          | None => Unsup
+          | Some gs =>
+              let* su := opt_str (sget "success" d) in
+              let* fa := opt_str (sget "failure" d) in
+              Ok (mkcof gs su fa key orig)
+          end
+      end
+  | _ => Unsup
+  end.
+
+Definition cof_step (mk : cof -> signal) (key caller : string) (s : st) : R :=
+  lift (assert_key_has_value s key caller) s (fun orig =>
+  lift (get_formatted s key) s (fun config =>
+  lift (instruction_from_dict config key orig) s (fun c =>
+  (ORaise (RSig (mk c)), s)))).
+
+(** [cof.switch]: first case whose expression is true, else a trailing default *)
+Fixpoint switch_select (s : st) (cases : list val) (idx : nat) (last : nat) : res (option val) :=
+  match cases with
+  | [] => Ok None
+  | VDict c :: rest =>
+      let dflt := if Nat.eqb idx last then
+                    match sget "default" c with Some VNone | None => None | Some d => Some d end
+                  else None in
+      match dflt with
+      | Some d => Ok (Some d)
+      | None =>
+          match sget "case" c, sget "call" c with
+          | Some e, Some call =>
+              if negb (py_truth call) then Unsup else
+              let* b := as_bool s e in
+              if b then Ok (Some call) else switch_select s rest (S idx) last
+          | _, _ => Unsup
+          end
+      end
+  | _ => Unsup
+  end.
+
+Definition switch_step (s : st) : R :=
+  lift (assert_key_has_value s "switch" "pypyr.steps.switch") s (fun cfg =>
+  match cfg with
+  | VList cases =>
+      lift (switch_select s cases 0 (List.length cases - 1)) s (fun sel =>
+      match sel with
+      | None => (OOk, s)
+      | Some raw =>
+          lift (fmt s raw) s (fun call =>
+          lift (instruction_from_dict call "switch" cfg) s (fun c =>
+          (ORaise (RSig (SCall c)), s)))
+      end)
+  | _ => (OUnsup, s)
+  end).
+
+(** * Plain step bodies *)
+Definition MISSING : val := VObj (-1).
+Definition getm (k : string) (s : st) : val :=
+  match sget k (ctx s) with Some v => v | None => MISSING end.
+
+Definition current_pipe (s : st) : string :=
+  match stack s with p :: _ => p | [] => "" end.
+
+(** the probe step: records tag, loop counters, stack depth, current pipeline and the
+    values of the keys listed under [pwatch] *)
+Definition probe_step (s : st) : R :=
+  let watch := match sget "pwatch" (ctx s) with
+               | Some (VList ks) =>
+                   map (fun k => match k with VStr x => getm x s | _ => MISSING end) ks
+               | _ => []
+               end in
+  (OOk, add_trace s (VList [getm "ptag" s; getm "i" s; getm "whileCounter" s;
+                            getm "retryCounter" s; VInt (Z.of_nat (List.length (stack s)));
+                            VStr (current_pipe s); VList watch])).
+
+(** the fail step: raises [err](msg) when [when] is absent or true *)
+Definition fail_step (s : st) : R :=
+  match sget "vfail" (ctx s) with
+  | Some (VDict c) =>
+      lift (match sget "when" c with None => Ok true | Some w => as_bool s w end) s (fun b =>
+      if b then
+        match sget "err" c, sget "msg" c with
+        | Some (VStr e), Some m =>
+            lift (fmt s m) s (fun m' =>
+            match m' with VStr ms => raise_new e ms s | _ => (OUnsup, s) end)
+        | _, _ => (OUnsup, s)
+        end
+      else (OOk, s))
+  | _ => (OUnsup, s)
+  end.
+
+Definition incr_step (s : st) : R :=
+  match sget "vincr" (ctx s) with
+  | Some (VStr k) =>
+      match sget k (ctx s) with
+      | None => (OOk, set_ctx s (sset k (VInt 1) (ctx s)))
+      | Some (VInt z) => (OOk, set_ctx s (sset k (VInt (z + 1)) (ctx s)))
+      | _ => (OUnsup, s)
+      end
+  | _ => (OUnsup, s)
+  end.
+
+(** pypyr.steps.set: pop 'set', then assign formatted key := formatted value, one by one *)
+Fixpoint set_items (items : list (val * val)) (s : st) : R :=
+  match items with
+  | [] => (OOk, s)
+  | (k, v) :: rest =>
+      lift (fmt s k) s (fun k' =>
+      lift (fmt s v) s (fun v' =>
+      set_items rest (set_ctx s (dict_set k' v' (ctx s)))))
+  end.
+
+Definition set_step (s : st) : R :=
+  lift (assert_key_has_value s "set" "pypyr.steps.set") s (fun cfg =>
+  match cfg with
+  | VDict items => set_items items (set_ctx s (spop "set" (ctx s)))
+  | _ => (OUnsup, s)
+  end).
+
+Definition clear_step (s : st) : R :=
+  lift (assert_key_has_value s "contextClear" "pypyr.steps.contextclear") s (fun cfg =>
+  match cfg with
+  | VList ks => (OOk, set_ctx s (fold_left (fun c k => dict_pop k c) ks (ctx s)))
+  | _ => (OUnsup, s)
+  end).
+
+(** * pype arguments (steps/pype.py get_arguments) *)
+Record pype_args := mkpa {
+  pa_name : string; pa_args : option dict; pa_out : option val; pa_use_parent : bool;
+  pa_raise : bool; pa_groups : option (list val); pa_success : option string;
+  pa_failure : option string }.
+
+Definition get_bool (d : dict) (k : string) (dflt : bool) : bool :=
+  match sget k d with Some v => py_truth v | None => dflt end.
+
+Definition get_arguments (s : st) : res pype_args :=
+  let* _ := assert_key_has_value s "pype" "pypyr.steps.pype" in
+  let* p := get_formatted s "pype" in
+  match p with
+  | VDict d =>
+      match sget "name" d with
+      | Some (VStr name) =>
+          let* args := (match sget "args" d with
+                        | None | Some VNone => Ok None
+                        | Some (VDict a) => Ok (Some a)
+                        | _ => Err "pypyr.errors.ContextError"
+                                   "pypyr.steps.pype 'args' in the 'pype' context item must be a dict."
+                        end) in
+          let has_args := match args with Some (_ :: _) => true | _ => false end in
+          let pipe_arg := match sget "pipeArg" d with Some v => py_truth v | None => false end in
+          if pipe_arg then Unsup else
+          let use_parent := if has_args && negb (shas "useParentContext" d) then false
+                            else get_bool d "useParentContext" true in
+          let out := match sget "out" d with Some VNone | None => None | Some o => Some o end in
+          if (match out with Some o => py_truth o | None => false end) && use_parent then
+            Err "pypyr.errors.ContextError"
+                "pypyr.steps.pype pype.out is only relevant if useParentContext = False. If you're using the parent context, no need to have out args since their values will already be in context. If you're NOT using parent context and you've specified pype.args, just leave off the useParentContext key and it'll default to False under the hood, or set it to False yourself if you keep it in."
+          else
+          let* groups := (match sget "groups" d with
+                          | None | Some VNone => Ok None
+                          | Some (VStr g) => Ok (Some [VStr g])
+                          | Some (VList l) => Ok (Some l)
+                          | _ => Unsup
+                          end) in
+          let* su := opt_str (sget "success" d) in
+          let* fa := opt_str (sget "failure" d) in
+          Ok (mkpa name args out use_parent (get_bool d "raiseError" true) groups su fa)
+      | _ => Unsup
+      end
+  | _ => Unsup
+  end.
+
+(** [write_child_context_to_parent] *)
+Fixpoint write_out (pairs : list (val * val)) (child parent : st) : R :=
+  match pairs with
+  | [] => (OOk, parent)
+  | (pk, VStr ck) :: rest =>
+      (* errors raised here carry the parent's exception counter *)
+      match get_formatted child ck with
+      | Ok v => write_out rest child (set_ctx parent (dict_set pk v (ctx parent)))
+      | Err n m => raise_new n m parent
+      | Unsup => (OUnsup, parent)
+      end
+  | _ => (OUnsup, parent)
+  end.
+
+Definition out_pairs (out : val) : option (list (val * val)) :=
+  match out with
+  | VStr k => Some [(VStr k, VStr k)]
+  | VList ks => Some (map (fun k => (k, k)) ks)
+  | VDict d => Some d
+  | _ => None
+  end.
+
+(** * Back-off strategies (retries.py), over exact rationals *)
+Definition qmin_opt (x : Q) (mx : option Q) : Q :=
+  match mx with
+  | Some m => if Qeq_bool m 0 then x else if Qle_bool x m then x else m
+  | None => x
+  end.
+
+Fixpoint qpow (b : Q) (n : nat) : Q :=
+  match n with O => 1%Q | S m => (b * qpow b m)%Q end.
+
+Definition jitter_q (jrc r d : Q) : Q := (d * jrc + (d - d * jrc) * r)%Q.
+
+(** duration before attempt [n]+1, i.e. [backoff_callable(n)], n >= 1 *)
+Definition backoff (name : string) (sleep : val) (mx : option Q) (jrc r : Q) (base : Q)
+           (n : nat) : option Q :=
+  let fixed :=
+      match sleep with
+      | VList l =>
+          match l with
+          | [] => None
+          | _ => match nth_error l (n - 1) with
+                 | Some v => match q_of v with Ok q => Some (qmin_opt q mx) | _ => None end
+                 | None => match q_of (last l VNone) with Ok q => Some (qmin_opt q mx) | _ => None end
+                 end
+          end
+      | _ => match q_of sleep with Ok q => Some (qmin_opt q mx) | _ => None end
+      end in
+  let scalar := match q_of sleep with Ok q => Some q | _ => None end in
+  let lin := match scalar with Some q => Some (qmin_opt (inject_Z (Z.of_nat n) * q) mx) | None => None end in
+  let expo := match scalar with Some q => Some (qmin_opt (qpow base n * q) mx) | None => None end in
+  let jitter (o : option Q) := match o with Some d => Some (jitter_q jrc r d) | None => None end in
+  if String.eqb name "fixed" then fixed
+  else if String.eqb name "jitter" then jitter fixed
+  else if String.eqb name "linear" then lin
+  else if String.eqb name "linearjitter" then jitter lin
+  else if String.eqb name "exponential" then expo
+  else if String.eqb name "exponentialjitter" then jitter expo
+  else None.
+
+(** * [utils.poll.while_until_true] *)
+Inductive iter_result := IDone (b : bool) | IRaise (o : outcome).
+
+Fixpoint poll (fuel : nat) (iter : Z -> st -> iter_result * st) (interval : nat -> option Q)
+         (max : option Z) (i : Z) (s : st) : (iter_result * st) :=
+  match fuel with
+  | O => (IRaise OUnsup, s)
+  | S f =>
+      let i' := (i + 1)%Z in
+      match iter i' s with
+      | (IRaise o, s1) => (IRaise o, s1)
+      | (IDone true, s1) => (IDone true, s1)
+      | (IDone false, s1) =>
+          match interval (Z.to_nat i') with
+          | None => (IRaise OUnsup, s1)
+          | Some d =>
+              match max with
+              | Some m =>
+                  if Z.eqb m 0 then poll f iter interval max i' (add_sleep s1 d)
+                  else if (i' <? m)%Z then poll f iter interval max i' (add_sleep s1 d)
+                  else (IDone false, s1)
+              | None => poll f iter interval max i' (add_sleep s1 d)
+              end
+          end
+      end
+  end.
+
+Definition LOOPFUEL : nat := 64.
+
+(** the calling step's own loop position (kept on the Step / decorator objects) *)
+Record counters := mkcnt { k_while : option Z; k_for : option val; k_retry : option Z }.
+Definition no_counters := mkcnt None None None.
+
+Definition opt_truth (o : option val) : bool :=
+  match o with Some v => py_truth v | None => false end.
+
+Definition has_foreach (sp : step) : bool := opt_truth (s_foreach sp).
+
+Definition error_name (r : raised) : string :=
+  match r with
+  | RExn n _ _ => n
+  | RSig SStop => "pypyr.errors.Stop"
+  | RSig SStopPipeline => "pypyr.errors.StopPipeline"
+  | RSig SStopStepGroup => "pypyr.errors.StopStepGroup"
+  | RSig (SCall _) => "pypyr.errors.Call"
+  | RSig (SJump _) => "pypyr.errors.Jump"
+  end.
+
+Definition names_of (l : list val) : option (list string) :=
+  opt_mapM (fun v => match v with VStr x => Some x | _ => None end) l.
+
+Section Engine.
+  Variable lib : library.
+  (** [StepsRunner.run_step_groups] of the CURRENT pipeline (re-entered by call and jump) *)
+  Variable rg : list val -> option string -> option string -> st -> R.
+  (** [Pipeline.load_and_run_pipeline] (re-entered by pype) *)
+  Variable rp : string -> option (list val) -> option string -> option string -> st -> R.
+
+  (** ** pypyr.steps.pype.run_step *)
+  Definition pype_step (s : st) : R :=
+    lift (get_arguments s) s (fun pa =>
+    let guard (r : R) : R :=
+        (* except (ControlOfFlowInstruction, Stop): raise / except Exception: raise_error? *)
+        match r with
+        | (ORaise (RExn _ _ _), s') | (OHandled _, s') =>
+            if pa_raise pa then r else (OOk, s')
+        | _ => r
+        end in
+    if pa_use_parent pa then
+      let s1 := match pa_args pa with
+                | Some ((_ :: _) as a) => set_ctx s (dict_update (ctx s) a)
+                | _ => s
+                end in
+      guard (rp (pa_name pa) (pa_groups pa) (pa_success pa) (pa_failure pa) s1)
+    else
+      let child0 := mkst (match pa_args pa with Some a => a | None => [] end) []
+                         (trace s) (sleeps s) (next_eid s) (jit s) in
+      let '(o, child) := rp (pa_name pa) (pa_groups pa) (pa_success pa) (pa_failure pa) child0 in
+      let parent := mkst (ctx s) (stack s) (trace child) (sleeps child) (next_eid child) (jit s) in
+      guard (match o with
+             | OOk =>
+                 match pa_out pa with
+                 | Some out =>
+                     if py_truth out then
+                       match out_pairs out with
+                       | Some pairs => write_out pairs child parent
+                       | None => (OUnsup, parent)
+                       end
+                     else (OOk, parent)
+                 | None => (OOk, parent)
+                 end
+             | _ => (o, parent)
+             end)).
+
+  (** ** the step body: [self.run_step_function(context)] *)
+  Definition run_body (sp : step) (s : st) : R :=
+    match s_body sp with
+    | BProbe => probe_step s
+    | BFail => fail_step s
+    | BIncr => incr_step s
+    | BStop => (ORaise (RSig SStop), s)
+    | BStopPipeline => (ORaise (RSig SStopPipeline), s)
+    | BStopStepGroup => (ORaise (RSig SStopStepGroup), s)
+    | BCall => cof_step SCall "call" "pypyr.steps.call" s
+    | BJump => cof_step SJump "jump" "pypyr.steps.jump" s
+    | BSwitch => switch_step s
+    | BSet => set_step s
+    | BClear => clear_step s
+    | BClearAll => (OOk, set_ctx s [])
+    | BPype => pype_step s
+    end.
+
+  (** ** [Step.reset_context_counters] *)
+  Definition reset_counters (sp : step) (k : counters) (c : cof) (s : st) : st :=
+    let c1 := match s_while sp, k_while k with
+              | Some _, Some n => sset "whileCounter" (VInt n) (ctx s)
+              | _, _ => ctx s
+              end in
+    let c2 := if has_foreach sp then
+                match k_for k with Some v => sset "i" v c1 | None => c1 end
+              else c1 in
+    let c3 := match s_retry sp, k_retry k with
+              | Some _, Some n => sset "retryCounter" (VInt n) c2
+              | _, _ => c2
+              end in
+    set_ctx s (sset (c_key c) (c_orig c) c3).
+
+  (** ** [Step.invoke_step] *)
+  Definition invoke (sp : step) (k : counters) (s : st) : R :=
+    match run_body sp s with
+    | (ORaise (RSig (SCall c)), s1) =>
+        let '(o, s2) := rg (c_groups c) (c_success c) (c_failure c) s1 in
+        let s3 := reset_counters sp k c s2 in
+        match o with
+        | OOk => (OOk, s3)
+        | ORaise (RSig sg) => (ORaise (RSig sg), s3)     (* instructions pass through *)
+        | ORaise r => (OHandled r, s3)                   (* raise HandledError from ex_info *)
+        | OHandled _ => (OUnsup, s3)                     (* never escapes a step *)
+        | OUnsup => (OUnsup, s3)
+        end
+    | r => r
+    end.
+
+  (** ** [Step.save_error] *)
+  Definition save_error (sp : step) (name msg : string) (eid : Z) (swallowed : bool)
+             (s : st) : R :=
+    lift (match s_onerror sp with
+          | Some oe => if py_truth oe then fmt s oe else Ok (VDict [])
+          | None => Ok (VDict [])
+          end) s (fun custom =>
+    let pos v := match s_pos sp with Some p => VInt (v p) | None => VNone end in
+    let failure := VDict [(VStr "name", VStr name); (VStr "description", VStr msg);
+                          (VStr "customError", custom); (VStr "line", pos fst);
+                          (VStr "col", pos snd); (VStr "step", VStr (s_name sp));
+                          (VStr "exception", VExn name msg eid);
+                          (VStr "swallowed", VBool swallowed)] in
+    match sget "runErrors" (ctx s) with
+    | None => (OOk, set_ctx s (sset "runErrors" (VList [failure]) (ctx s)))
+    | Some (VList l) => (OOk, set_ctx s (sset "runErrors" (VList (l ++ [failure])) (ctx s)))
+    | Some _ => (OUnsup, s)
+    end).
+
+  (** ** [RetryDecorator.exec_iteration] and [retry_loop] *)
+  Definition in_names (nm : string) (l : val) : res bool :=
+    match l with
+    | VList xs | VTuple xs => Ok (py_in (VStr nm) xs)
+    | VStr x => Unsup
+    | _ => Unsup
+    end.
+
+  Definition retry_iter (rc : rcfg) (sp : step) (k : counters) (max : option Z)
+             (n : Z) (s : st) : iter_result * st :=
+    let s0 := set_ctx s (sset "retryCounter" (VInt n) (ctx s)) in
+    let k' := mkcnt (k_while k) (k_for k) (Some n) in
+    match invoke sp k' s0 with
+    | (OOk, s1) => (IDone true, s1)
+    | (ORaise (RSig sg), s1) => (IRaise (ORaise (RSig sg)), s1)
+    | (OUnsup, s1) => (IRaise OUnsup, s1)
+    | (o, s1) =>
+        let at_max := match max with
+                      | Some m => negb (Z.eqb m 0) && Z.eqb n m
+                      | None => false
+                      end in
+        if at_max then (IRaise o, s1)
+        else
+          let cause := match o with OHandled c => c | ORaise r => r | _ => RSig SStop end in
+          let nm := error_name cause in
+          let check_stop :=
+              if opt_truth (r_stopon rc) then
+                match r_stopon rc with
+                | Some l => let* fl := fmt s1 l in in_names nm fl
+                | None => Ok false
+                end
+              else Ok false in
+          match check_stop with
+          | Err en em => let '(o', s2) := raise_new en em s1 in (IRaise o', s2)
+          | Unsup => (IRaise OUnsup, s1)
+          | Ok true => (IRaise o, s1)
+          | Ok false =>
+              let check_retry :=
+                  if opt_truth (r_retryon rc) then
+                    match r_retryon rc with
+                    | Some l => let* fl := fmt s1 l in let* b := in_names nm fl in Ok (negb b)
+                    | None => Ok false
+                    end
+                  else Ok false in
+              match check_retry with
+              | Err en em => let '(o', s2) := raise_new en em s1 in (IRaise o', s2)
+              | Unsup => (IRaise OUnsup, s1)
+              | Ok true => (IRaise o, s1)
+              | Ok false => (IDone false, s1)
+              end
+          end
+    end.
+
+  Definition retry_loop (rc : rcfg) (sp : step) (k : counters) (s : st) : R :=
+    let s0 := set_ctx s (sset "retryCounter" (VInt 0) (ctx s)) in
+    lift (fmt s0 (r_sleep rc)) s0 (fun sleep =>
+    lift (if opt_truth (r_backoff rc)
+          then match r_backoff rc with Some b => fmt s0 b | None => Ok (VStr "fixed") end
+          else Ok (VStr "fixed")) s0 (fun bname =>
+    lift (if opt_truth (r_sleepmax rc)
+          then match r_sleepmax rc with
+               | Some m => let* q := as_float s0 m in Ok (Some q)
+               | None => Ok None
+               end
+          else Ok None) s0 (fun mx =>
+    lift (fmt s0 (r_jrc rc)) s0 (fun jrcv =>
+    lift (match r_args rc with Some a => fmt s0 a | None => Ok VNone end) s0 (fun args =>
+    lift (if opt_truth (r_max rc)
+          then match r_max rc with
+               | Some m => let* z := as_int s0 m in Ok (Some z)
+               | None => Ok None
+               end
+          else Ok None) s0 (fun max =>
+    match bname, q_of jrcv with
+    | VStr bn, Ok jrc =>
+        let base := match args with
+                    | VDict d => match sget "base" d with
+                                 | Some b => match q_of b with Ok q => q | _ => 2%Q end
+                                 | None => 2%Q
+                                 end
+                    | _ => 2%Q
+                    end in
+        let interval := backoff bn sleep mx jrc (jit s0) base in
+        match poll LOOPFUEL (retry_iter rc sp k max) interval max 0 s0 with
+        | (IDone true, s1) => (OOk, s1)
+        | (IDone false, s1) => raise_new "AssertionError" "" s1
+        | (IRaise o, s1) => (o, s1)
+        end
+    | _, _ => (OUnsup, s0)
+    end)))))).
+
+  (** ** [Step.run_conditional_decorators] *)
+  Definition cond (sp : step) (k : counters) (s : st) : R :=
+    lift (as_bool s (s_run sp)) s (fun run_me =>
+    if negb run_me then (OOk, s) else
+    lift (as_bool s (s_skip sp)) s (fun skip_me =>
+    if skip_me then (OOk, s) else
+    let r := match s_retry sp with
+             | Some rc => retry_loop rc sp k s
+             | None => invoke sp k s
+             end in
+    match r with
+    | (ORaise (RExn name msg eid), s1) =>
+        lift (as_bool s1 (s_swallow sp)) s1 (fun swallow =>
+        andthen (save_error sp name msg eid swallow s1) (fun s2 =>
+        if swallow then (OOk, s2) else (ORaise (RExn name msg eid), s2)))
+    | (OHandled cause, s1) =>
+        lift (as_bool s1 (s_swallow sp)) s1 (fun swallow =>
+        if swallow then (OOk, s1) else (ORaise cause, s1))
+    | _ => r      (* OOk, instructions (re-raised untouched), OUnsup *)
+    end)).
+
+  (** ** [Step.foreach_loop] *)
+  Fixpoint foreach_items (sp : step) (k : counters) (items : list val) (s : st) : R :=
+    match items with
+    | [] => (OOk, s)
+    | it :: rest =>
+        let s1 := set_ctx s (sset "i" it (ctx s)) in
+        andthen (cond sp (mkcnt (k_while k) (Some it) (k_retry k)) s1)
+                (foreach_items sp k rest)
+    end.
+
+  Definition iter_items (v : val) : res (list val) :=
+    match v with
+    | VList l | VTuple l => Ok l
+    | VDict d => Ok (map fst d)
+    | VNone | VBool _ | VInt _ | VFloat _ =>
+        Err "TypeError" ("'" ++ type_name v ++ "' object is not iterable")
+    | _ => Unsup
+    end.
+
+  Definition foreach_loop (sp : step) (k : counters) (s : st) : R :=
+    match s_foreach sp with
+    | Some fe => lift (fmt s fe) s (fun v => lift (iter_items v) s (fun items =>
+                 foreach_items sp k items s))
+    | None => (OUnsup, s)
+    end.
+
+  (** ** [Step.run_foreach_or_conditional] *)
+  Definition foreach_or_cond (sp : step) (k : counters) (s : st) : R :=
+    if has_foreach sp then foreach_loop sp k s else cond sp k s.
+
+  (** ** [WhileDecorator.exec_iteration] and [while_loop] *)
+  Definition while_iter (w : wcfg) (sp : step) (n : Z) (s : st) : iter_result * st :=
+    let s0 := set_ctx s (sset "whileCounter" (VInt n) (ctx s)) in
+    match foreach_or_cond sp (mkcnt (Some n) None None) s0 with
+    | (OOk, s1) =>
+        if opt_truth (w_stop w) then
+          match w_stop w with
+          | Some e =>
+              match as_bool s1 e with
+              | Ok b => (IDone b, s1)
+              | Err en em => let '(o, s2) := raise_new en em s1 in (IRaise o, s2)
+              | Unsup => (IRaise OUnsup, s1)
+              end
+          | None => (IDone false, s1)
+          end
+        else (IDone false, s1)
+    | (o, s1) => (IRaise o, s1)
+    end.
+
+  Definition while_loop (w : wcfg) (sp : step) (s : st) : R :=
+    let s0 := set_ctx s (sset "whileCounter" (VInt 0) (ctx s)) in
+    match w_stop w, w_max w with
+    | None, None => (OUnsup, s0)
+    | _, _ =>
+    lift (as_bool s0 (w_eom w)) s0 (fun eom =>
+    lift (as_float s0 (w_sleep w)) s0 (fun sleep =>
+    lift (match w_max w with
+          | Some m => let* z := as_int s0 m in Ok (Some z)
+          | None => Ok None
+          end) s0 (fun max =>
+    if (match max with Some m => (m <? 1)%Z | None => false end) then (OOk, s0) else
+    match poll LOOPFUEL (while_iter w sp) (fun _ => Some sleep) max 0 s0 with
+    | (IDone true, s1) => (OOk, s1)
+    | (IRaise o, s1) => (o, s1)
+    | (IDone false, s1) =>
+        if eom then
+          match max with
+          | Some m =>
+              if opt_truth (w_stop w) then
+                match w_stop w with
+                | Some e =>
+                    match py_str e with
+                    | Some es => raise_new "pypyr.errors.LoopMaxExhaustedError"
+                                   ("while loop reached " ++ str_of_Z m ++ " and " ++ es
+                                    ++ " never evaluated to True.") s1
+                    | None => (OUnsup, s1)
+                    end
+                | None => (OUnsup, s1)
+                end
+              else raise_new "pypyr.errors.LoopMaxExhaustedError"
+                             ("while loop reached " ++ str_of_Z m ++ ".") s1
+          | None => (OUnsup, s1)
+          end
+        else (OOk, s1)
+    end)))
+    end.
+
+  (** ** [Step.run_step] *)
+  Definition set_step_input (sp : step) (s : st) : st :=
+    match s_in sp with
+    | Some ((_ :: _) as d) => set_ctx s (dict_update (ctx s) d)
+    | _ => s
+    end.
+
+  Definition unset_step_input (sp : step) (s : st) : st :=
+    match s_in sp with
+    | Some d => set_ctx s (fold_left (fun c kv => dict_pop (fst kv) c) d (ctx s))
+    | None => s
+    end.
+
+  Definition run_step (sp : step) (s : st) : R :=
+    let s1 := set_step_input sp s in
+    let r := match s_while sp with
+             | Some w => while_loop w sp s1
+             | None => foreach_or_cond sp no_counters s1
+             end in
+    andthen r (fun s2 => (OOk, unset_step_input sp s2)).
+
+  (** ** [StepsRunner.run_pipeline_steps] *)
+  Fixpoint run_steps (steps : list step) (s : st) : R :=
+    match steps with
+    | [] => (OOk, s)
+    | sp :: rest => andthen (run_step sp s) (run_steps rest)
+    end.
+
+  Definition get_steps (group : string) (s : st) : list step :=
+    match find (fun p => String.eqb (fst p) (current_pipe s)) lib with
+    | Some (_, pl) =>
+        match find (fun g => String.eqb (fst g) group) pl with
+        | Some (_, Some steps) => steps
+        | _ => []
+        end
+    | None => []
+    end.
+
+  (** ** [StepsRunner.run_step_group] *)
+  Definition run_group (group : string) (raise_stop : bool) (s : st) : R :=
+    match run_steps (get_steps group s) s with
+    | (ORaise (RSig (SJump c)), s1) => rg (c_groups c) (c_success c) (c_failure c) s1
+    | (ORaise (RSig SStopStepGroup), s1) =>
+        if raise_stop then (ORaise (RSig SStopStepGroup), s1) else (OOk, s1)
+    | r => r
+    end.
+
+  Fixpoint run_group_seq (groups : list string) (s : st) : R :=
+    match groups with
+    | [] => (OOk, s)
+    | g :: rest => andthen (run_group g false s) (run_group_seq rest)
+    end.
+
+  (** ** [StepsRunner.run_failure_step_group] *)
+  Definition run_failure (group : string) (s : st) : R :=
+    match run_group group true s with
+    | (ORaise (RSig sg), s1) => (ORaise (RSig sg), s1)     (* except Stop: raise *)
+    | (ORaise (RExn _ _ _), s1) | (OHandled _, s1) => (OOk, s1)   (* swallowed *)
+    | r => r
+    end.
+
+  (** ** [StepsRunner.run_step_groups] *)
+  Definition is_signal (o : outcome) : bool :=
+    match o with ORaise (RSig _) => true | _ => false end.
+
+  Definition groups_body (groups : list val) (success failure : option string) (s : st) : R :=
+    match groups with
+    | [] => raise_new "ValueError"
+              "you must specify which step-groups you want to run. groups is None." s
+    | _ =>
+        match names_of groups with
+        | None => (OUnsup, s)
+        | Some names =>
+            let main := andthen (run_group_seq names s) (fun s1 =>
+                        match success with
+                        | Some sg => match sg with "" => (OOk, s1) | _ => run_group sg false s1 end
+                        | None => (OOk, s1)
+                        end) in
+            match main with
+            | (ORaise (RExn n m e), s1) =>
+                match failure with
+                | Some fg =>
+                    match fg with
+                    | "" => main
+                    | _ =>
+                        match run_failure fg s1 with
+                        | (ORaise (RSig SStopStepGroup), s2) => (OOk, s2)      (* do_raise = False *)
+                        | (OOk, s2) => (ORaise (RExn n m e), s2)             (* the original *)
+                        | r => r        (* Stop / StopPipeline from the handler, or OUnsup *)
+                        end
+                    end
+                | None => main
+                end
+            | _ => main
+            end
+        end
+    end.
+End Engine.
+
+(** * Pipelines *)
+Section Pipelines.
+  Variable lib : library.
+  Variable rg : list val -> option string -> option string -> st -> R.
+
+  (** [Pipeline._run_pipeline] (no context parser in the modelled pipelines) *)
+  Definition run_pipeline_inner (groups : option (list val)) (success failure : option string)
+             (s : st) : R :=
+    let no_groups := match groups with None | Some [] => true | _ => false end in
+    let none_or_empty (o : option string) := match o with None | Some "" => true | _ => false end in
+    let gs := if no_groups then [VStr "steps"] else match groups with Some g => g | None => [] end in
+    let dflt := no_groups && none_or_empty success && none_or_empty failure in
+    let su := if dflt then Some "on_success" else success in
+    let fa := if dflt then Some "on_failure" else failure in
+    match rg gs su fa s with
+    | (ORaise (RSig SStopPipeline), s1) => (OOk, s1)
+    | r => r
+    end.
+
+  (** [Pipeline.load_and_run_pipeline]: push on the call stack, run, pop in finally *)
+  Definition load_and_run (name : string) (groups : option (list val))
+             (success failure : option string) (s : st) : R :=
+    match find (fun p => String.eqb (fst p) name) lib with
+    | None => (OUnsup, s)
+    | Some _ =>
+        let '(o, s1) := run_pipeline_inner groups success failure (set_stack s (name :: stack s)) in
+        (o, set_stack s1 (tl (stack s1)))
+    end.
+End Pipelines.
+
+Fixpoint run_groups (fuel : nat) (lib : library) (groups : list val)
+         (success failure : option string) (s : st) {struct fuel} : R :=
+  match fuel with
+  | O => (OUnsup, s)
+  | S f => groups_body lib (run_groups f lib)
+                       (fun name gs su fa s' => load_and_run lib (run_groups f lib) name gs su fa s')
+                       groups success failure s
+  end.
+
+Definition run_pipeline (fuel : nat) (lib : library) := load_and_run lib (run_groups fuel lib).
+
+(** [Pipeline.run] + [pipelinerunner.run]: Stop of any kind is caught at the root *)
+Definition api_run (fuel : nat) (lib : library) (name : string) (dict_in : dict)
+           (groups : option (list val)) (success failure : option string) (jitter : Q) : R :=
+  let s0 := mkst dict_in [] [] [] 0 jitter in
+  match run_pipeline fuel lib name groups success failure s0 with
+  | (ORaise (RSig SStop), s1) | (ORaise (RSig SStopPipeline), s1)
+  | (ORaise (RSig SStopStepGroup), s1) => (OOk, s1)
+  | r => r
+  end.
+
+Definition EFUEL : nat := 24.
